@@ -874,6 +874,78 @@ func longEval(idx int64, param string) (*explore.Result, *failures) {
 	return res, &fs
 }
 
+// ---------------------------------------------------------------- wide-rune texts longer than the fragment
+
+// Texts of one repeated multi-byte rune (a non-letter, so that the match "a" stays
+// a token of its own) that are longer than every fragment size used, with the
+// match at every rune index 0..70 and at the end; alone, and with a second match
+// at the end of the text.
+type wideFiller struct {
+	name string
+	r    string
+}
+
+var wideFillers = []wideFiller{
+	{"2-byte U+00A7", "\u00a7"},
+	{"3-byte U+4E16", "\u4e16"},
+	{"3-byte U+3001", "\u3001"},
+	{"4-byte U+1F600", "\U0001F600"},
+	{"2-byte U+00A7 and space", "\u00a7 "},
+	{"3-byte U+4E16 and space", "\u4e16 "},
+}
+
+const wideRunes = 260
+
+func wideTexts(f wideFiller) []string {
+	unit := utf8.RuneCountInString(f.r)
+	mk := func(k int, second bool) string {
+		var b strings.Builder
+		n := 0
+		for n+unit <= k {
+			b.WriteString(f.r)
+			n += unit
+		}
+		for n < k { // filler of two runes: complete with its first rune
+			r, _ := utf8.DecodeRuneInString(f.r)
+			b.WriteRune(r)
+			n++
+		}
+		b.WriteString("a")
+		n++
+		for n+unit <= wideRunes-2 {
+			b.WriteString(f.r)
+			n += unit
+		}
+		if second {
+			r, _ := utf8.DecodeRuneInString(f.r)
+			b.WriteRune(r)
+			b.WriteString("a")
+		}
+		return b.String()
+	}
+	var out []string
+	for k := 0; k <= 70; k++ {
+		out = append(out, mk(k, false), mk(k, true))
+	}
+	out = append(out, mk(wideRunes-1, false), mk(wideRunes/2, false), mk(199, false), mk(200, false), mk(201, true))
+	return out
+}
+
+func wideSizes(string) []int { return []int{5, 20, 30, 100, 200, 0} }
+
+func wideTotal(string) int64 { return int64(len(wideFillers)) }
+
+func wideEval(idx int64, param string) (*explore.Result, *failures) {
+	res := &explore.Result{Counts: map[string]int64{}, Outcome: fmt.Sprint(idx)}
+	var fs failures
+	texts := wideTexts(wideFillers[idx])
+	searchAndCheck(texts, wideSizes, &fs, res)
+	if idx == 1 {
+		res.Sample = map[string]interface{}{"filler": wideFillers[idx].name, "texts": len(texts), "runes_each": utf8.RuneCountInString(texts[0]), "highlighter_calls": res.Evals}
+	}
+	return res, &fs
+}
+
 // ---------------------------------------------------------------- adversarial locations
 
 var advTextsQuick = []string{"", "é", "aé世b"}
@@ -1055,13 +1127,14 @@ func main() {
 	withAspects("c20-short", shortTotal(alphaShort), shortEval(alphaShort))
 	withAspects("c20-replacement", shortTotal(alphaRepl), shortEval(alphaRepl))
 	withAspects("c20-long", longTotal, longEval)
+	withAspects("c20-wide", wideTotal, wideEval)
 	withAspects("c20-adversarial", advTotal, advEval)
 	explore.WorkerMain()
 	c := checkmain.New("C20")
 	if v := c.IsReplay(); v != nil {
 		c.RunReplay(v)
 	}
-	c.Rule = "short: every text of <= 5 (thorough: 7) runes over {a, b, space, e-acute (2 bytes), U+4E16 (3 bytes)}, indexed in blocks of 125 documents as a stored, highlightable field with the standard analyzer, as a keyword field and with the CJK analyzer (overlapping bigrams); 16 queries (term a/b/e-acute/U+4E16, phrase \"a b\", match \"a b\", match of four terms, match-all = no locations for the field, keyword prefix queries = one location spanning the whole text, two CJK bigram matches) through TopNSearch.IncludeLocations; every hit x fragment sizes 1..runes+1 and the bundled default x 1..3 fragments x HTML and ANSI, plus BestFragment. replacement: the same over {a, b, space, U+FFFD} up to 5 (6) runes. long: 25 hand-built texts (> 3 x 200 runes, matches at both ends, multi-byte and 4-byte fillers, HTML special characters, U+FFFD, dense matches, runs of overlapping bigrams) x sizes {1,2,3,5,8,13,50,199,200,201,n-1,n,n+1,default}. adversarial: texts {empty, e-acute, a+e-acute+U+4E16+b} (thorough: also a and U+4E16+a+space+e-acute) x every sequence of <= 3 locations with start,end in {-1,0,1,inside a rune,len-1,len,len+1} (inverted ones included), all under one term in the given order and, when the starts differ, one term each x sizes {1,2,runes+1,default} x HTML/ANSI x 1 and 3 fragments. Every block is presented once per pinned failure class and once for all other failures (evaluated once). non-trivial = the best fragment carries a mark (real searches), a non-empty well-formed location sequence (adversarial)"
+	c.Rule = "short: every text of <= 5 (thorough: 7) runes over {a, b, space, e-acute (2 bytes), U+4E16 (3 bytes)}, indexed in blocks of 125 documents as a stored, highlightable field with the standard analyzer, as a keyword field and with the CJK analyzer (overlapping bigrams); 16 queries (term a/b/e-acute/U+4E16, phrase \"a b\", match \"a b\", match of four terms, match-all = no locations for the field, keyword prefix queries = one location spanning the whole text, two CJK bigram matches) through TopNSearch.IncludeLocations; every hit x fragment sizes 1..runes+1 and the bundled default x 1..3 fragments x HTML and ANSI, plus BestFragment. replacement: the same over {a, b, space, U+FFFD} up to 5 (6) runes. long: 25 hand-built texts (> 3 x 200 runes, matches at both ends, multi-byte and 4-byte fillers, HTML special characters, U+FFFD, dense matches, runs of overlapping bigrams) x sizes {1,2,3,5,8,13,50,199,200,201,n-1,n,n+1,default}. wide: 6 fillers (a 2-byte, two 3-byte and a 4-byte non-letter rune repeated, and the 2- and 3-byte ones alternating with a space) x texts of about 260 runes with the match a at every rune index 0..70, at 130, 199, 200 and at the end, alone and with a second match at the end x sizes {5,20,30,100,200,default} x HTML/ANSI x BestFragment and BestFragments(1..3). adversarial: texts {empty, e-acute, a+e-acute+U+4E16+b} (thorough: also a and U+4E16+a+space+e-acute) x every sequence of <= 3 locations with start,end in {-1,0,1,inside a rune,len-1,len,len+1} (inverted ones included), all under one term in the given order and, when the starts differ, one term each x sizes {1,2,runes+1,default} x HTML/ANSI x 1 and 3 fragments. Every block is presented once per pinned failure class and once for all other failures (evaluated once). non-trivial = the best fragment carries a mark (real searches), a non-empty well-formed location sequence (adversarial)"
 	c.Explanation = "bounded-exhaustive enumeration; the oracle works on the returned strings only: the separators (U+2026 at either end) and the known markup (<mark>..</mark>, ESC[43m..ESC[0m) are removed, HTML is un-escaped; the rest must occur in the stored text as a contiguous piece that starts and ends on rune boundaries and has at most fragment-size runes; at some occurrence every marked span must equal one location of the hit or the union of a run of overlapping locations (sets, no order); the fragments must be placeable pairwise disjoint (the piece may occur several times); at most the requested number; if a location of at most fragment-size runes exists BestFragment must carry a mark; nothing may panic"
 	c.Assumptions = []string{
 		"locations come from TopNSearch.IncludeLocations (AllMatches.IncludeLocations never fills DocumentMatch.Locations: the AllIterator does not call Complete)",
@@ -1074,6 +1147,7 @@ func main() {
 	c.AddEnum(explore.Enumerate(explore.EnumConfig{Name: "c20-short", Param: c.Tier, Budget: c.PickD(20*time.Second, 6*time.Minute)}))
 	c.AddEnum(explore.Enumerate(explore.EnumConfig{Name: "c20-replacement", Param: c.Tier, Budget: c.PickD(8*time.Second, 2*time.Minute)}))
 	c.AddEnum(explore.Enumerate(explore.EnumConfig{Name: "c20-long", Param: c.Tier, Budget: c.PickD(12*time.Second, 2*time.Minute), Chunk: int64(len(pinned) + 1)}))
+	c.AddEnum(explore.Enumerate(explore.EnumConfig{Name: "c20-wide", Param: c.Tier, Budget: c.PickD(10*time.Second, 2*time.Minute), Chunk: int64(len(pinned) + 1)}))
 	c.AddEnum(explore.Enumerate(explore.EnumConfig{Name: "c20-adversarial", Param: c.Tier, Budget: c.PickD(12*time.Second, 2*time.Minute)}))
 	c.Finish()
 }
